@@ -1,0 +1,54 @@
+//go:build verif
+// +build verif
+
+package jparse
+
+// Accessors for the verification harness in /verif (build tag "verif").
+// This file only adds code; nothing here is compiled into normal builds.
+
+// VerifTables describes the lexer and parser tables.
+type VerifTables struct {
+	TokenNames []string       // tokenType.String() by token type, up to typeIn
+	Bps        []int          // binding power by token type
+	HasNud     []bool         // a nud exists for the token type
+	HasLed     []bool         // a led exists for the token type
+	Symbols1   map[rune]int   // one-character symbols -> token type
+	Symbols2   map[string]int // two-character symbols -> token type
+	Keywords   map[string]int // keyword -> token type
+	ErrMsgs    map[int]string // ErrType -> message template
+	LastErr    int
+}
+
+// VerifGetTables returns the tables as the running code has them.
+func VerifGetTables() VerifTables {
+	t := VerifTables{
+		Symbols1: map[rune]int{},
+		Symbols2: map[string]int{},
+		Keywords: map[string]int{},
+		ErrMsgs:  map[int]string{},
+		LastErr:  int(ErrInvalidParamType),
+	}
+	for tt := typeEOF; tt <= typeIn; tt++ {
+		t.TokenNames = append(t.TokenNames, tt.String())
+		t.Bps = append(t.Bps, lookupBp(tt))
+		t.HasNud = append(t.HasNud, lookupNud(tt) != nil)
+		t.HasLed = append(t.HasLed, lookupLed(tt) != nil)
+	}
+	for r := rune(0); r < 256; r++ {
+		if tt := lookupSymbol1(r); tt > 0 {
+			t.Symbols1[r] = int(tt)
+		}
+		for _, rt := range lookupSymbol2(r) {
+			t.Symbols2[string(r)+string(rt.r)] = int(rt.tt)
+		}
+	}
+	for _, s := range []string{"and", "or", "in", "true", "false", "null", "function", "not", "if"} {
+		if tt := lookupKeyword(s); tt > 0 {
+			t.Keywords[s] = int(tt)
+		}
+	}
+	for e := ErrSyntaxError; e <= ErrInvalidParamType; e++ {
+		t.ErrMsgs[int(e)] = errmsgs[e]
+	}
+	return t
+}
